@@ -247,8 +247,13 @@ fn compare(req: &J, masks: &[u8]) -> Result<Option<usize>, (String, String)> {
   let (m0, r0) = &results[0];
   for (m, r) in &results[1..] {
     let same = if op == "format" && has_comment(req["text"].as_str().unwrap_or("")) {
-      // "same formatted text up to comments"
-      strip(r) == strip(r0)
+      // "same formatted text up to comments": a build that keeps comments lays the text out differently around
+      // them (one entry per line with a trailing comma), so the texts are compared by what they denote
+      strip(r) == strip(r0) || {
+        let sk = |x: &str| x.strip_prefix("formatted\n").and_then(|t| vcore::calls::with_parsed(t, |c| vcore::skel::skel(c)).ok());
+        let (a, b) = (sk(r), sk(r0));
+        a.is_some() && a == b
+      }
     } else {
       r == r0
     };
